@@ -269,8 +269,27 @@ func (ex *Exec) allocFact(r Val, t types.Type) {
 // specialCall: modelled standard-library calls with effects.
 func (ex *Exec) specialCall(callee *ssa.Function, c *ssa.Call, args []Val) bool {
 	switch callee.String() {
+	case "(*sync.Mutex).Lock", "(*sync.Mutex).Unlock", "(*sync.RWMutex).Lock", "(*sync.RWMutex).Unlock":
+		// ghost lock state: which mutexes this activation holds
+		ex.e.regHeap("lockheld", "(Array Ref Bool)")
+		m := args[0]
+		if m.Loc != nil {
+			m = ex.env.materialize(m)
+		}
+		held := "true"
+		if strings.HasSuffix(callee.String(), "Unlock") {
+			held = "false"
+			ex.oblige("lock", "unlock-of-held-mutex:"+ex.srcText(c.Common().Args[0]), fmt.Sprintf("(select %s %s)", ex.st.get("lockheld"), m.T), c.Pos())
+		} else {
+			ex.oblige("lock", "no-double-lock:"+ex.srcText(c.Common().Args[0]), fmt.Sprintf("(not (select %s %s))", ex.st.get("lockheld"), m.T), c.Pos())
+		}
+		ex.st.set("lockheld", fmt.Sprintf("(store %s %s %s)", ex.st.get("lockheld"), m.T, held))
+		return true
 	case "sync/atomic.LoadUint32", "sync/atomic.LoadInt32", "sync/atomic.LoadUint64", "sync/atomic.LoadInt64":
 		ex.setResult(c, ex.env.loadVal(ex.st, args[0], c.Type()))
+		// ghost: remember which location was polled last
+		ex.e.regHeap("lastload", "Ref")
+		ex.st.set("lastload", ex.env.materialize(args[0]).T)
 		return true
 	case "sync/atomic.StoreUint32", "sync/atomic.StoreInt32", "sync/atomic.StoreUint64", "sync/atomic.StoreInt64":
 		if args[0].Loc != nil {
@@ -402,9 +421,6 @@ func (ex *Exec) havocAssigns(cc *Contract, m map[string]Val, pre *State) *State 
 			cond := ex.clauseTerm(cl, m, pre, pre, true)
 			cond = e.define("framecond", "Bool", cond)
 			same := pre.clone()
-			oa := pre.get("alloc")
-			same.havoc("alloc")
-			e.assume(fmt.Sprintf("(forall ((r Ref)) (! (=> (select %s r) (select %s r)) :pattern ((select %s r))))", oa, same.get("alloc"), same.get("alloc")))
 			any := ex.jsEffect(pre)
 			return mergeStates(e, []string{cond, "(not " + cond + ")"}, []*State{same, any})
 		}
@@ -469,13 +485,6 @@ func (ex *Exec) havocAssigns(cc *Contract, m map[string]Val, pre *State) *State 
 			}
 		}
 	}
-	// allocation may grow
-	oldAlloc := pre.get("alloc")
-	post.havoc("alloc")
-	e.assume(fmt.Sprintf("(forall ((r Ref)) (! (=> (select %s r) (select %s r)) :pattern ((select %s r))))", oldAlloc, post.get("alloc"), post.get("alloc")))
-	oldA := pre.get("allocA")
-	post.havoc("allocA")
-	e.assume(fmt.Sprintf("(forall ((r ArrRef)) (! (=> (select %s r) (select %s r)) :pattern ((select %s r))))", oldA, post.get("allocA"), post.get("allocA")))
 	return post
 }
 
